@@ -4,6 +4,8 @@
 #include "fw.hpp"
 #include "../ref/ref.hpp"
 #include <memory>
+#include <sys/mman.h>
+#include <unistd.h>
 
 namespace lib {
 using ref::Config;
@@ -15,6 +17,30 @@ inline int create(const Config &c) {
     a.k = c.k; a.m = c.m; a.w = c.w; a.hd = c.hd; a.ct = c.ct;
     return liberasurecode_instance_create((unsigned)c.backend, &a);
 }
+
+// the back ends' exported operation tables (layout guarded by abi_probe.c); used to ask a back end which
+// fragment versions it accepts, and by the fault-injection harness
+extern "C" {
+struct lec_op_stubs {
+    void *(*init)(void *, void *); int (*exit)(void *); int (*encode)(void *, char **, char **, int);
+    int (*decode)(void *, char **, char **, int *, int); int (*fragments_needed)(void *, int *, int *, int *);
+    int (*reconstruct)(void *, char **, char **, int *, int, int); int (*element_size)(void *);
+    bool (*is_compatible_with)(uint32_t); size_t (*get_backend_metadata_size)(void *, int); size_t (*get_encode_offset)(void *, int);
+};
+extern struct lec_op_stubs liberasurecode_rs_vand_op_stubs, flat_xor_hd_op_stubs, null_op_stubs, isa_l_rs_vand_op_stubs, isa_l_rs_cauchy_op_stubs;
+}
+inline bool backend_accepts(int backend, uint32_t version) {
+    switch (backend) {
+    case ref::B_RS: return liberasurecode_rs_vand_op_stubs.is_compatible_with(version);
+    case ref::B_XOR: return flat_xor_hd_op_stubs.is_compatible_with(version);
+    case ref::B_NULL: return null_op_stubs.is_compatible_with(version);
+    case ref::B_ISA_V: return isa_l_rs_vand_op_stubs.is_compatible_with(version);
+    case ref::B_ISA_C: return isa_l_rs_cauchy_op_stubs.is_compatible_with(version);
+    }
+    return false;
+}
+struct InstallAccepts { InstallAccepts() { ref::accepts_hook() = backend_accepts; } };
+static InstallAccepts g_install_accepts;
 
 inline bool isa_available() {
     static int v = -1;
@@ -105,6 +131,48 @@ struct FragSet {
         return true;
     }
     ~FragSet() { for (char *b : bases) free(b); free(ptrs); }
+};
+
+// ------------------------------------------------------------------ guard-page placement (C15, C02)
+// inputs on PROT_READ pages flush against PROT_NONE pages: any write to an input, any read outside it faults
+struct Guarded {
+    uint8_t *map = nullptr; size_t maplen = 0; uint8_t *p = nullptr; size_t n = 0;
+    // end_flush: buffer ends at the PROT_NONE page (over-read faults); else starts right after one (under-read faults)
+    void place(const uint8_t *src, size_t len, bool end_flush, int misalign) {
+        long pg = sysconf(_SC_PAGESIZE);
+        size_t body = (len + (size_t)misalign + pg - 1) / pg * pg + pg;
+        maplen = body + 2 * pg;
+        map = (uint8_t *)mmap(nullptr, maplen, PROT_READ | PROT_WRITE, MAP_PRIVATE | MAP_ANONYMOUS, -1, 0);
+        if (map == MAP_FAILED) abort();
+        n = len;
+        if (end_flush) p = map + pg + body - len;          // last byte just before the trailing guard page
+        else p = map + pg;                                  // first byte just after the leading guard page
+        if (end_flush && misalign == 0) p -= ((uintptr_t)p & 15);   // keep 16-alignment when asked: then ends <16 bytes before the guard
+        if (len) memcpy(p, src, len);
+        mprotect(map, pg, PROT_NONE);
+        mprotect(map + pg + body, pg, PROT_NONE);
+        mprotect(map + pg, body, PROT_READ);
+    }
+    ~Guarded() { if (map) munmap(map, maplen); }
+};
+
+// a presented fragment set on guarded read-only pages (same interface subset as FragSet)
+struct GuardedSet {
+    std::vector<std::unique_ptr<Guarded>> gs; std::unique_ptr<Guarded> arr; char **ptrs = nullptr; int count = 0;
+    void build(const std::vector<const std::vector<uint8_t> *> &frs, const std::vector<int> &align, int flushsel) {
+        std::vector<char *> p;
+        for (size_t i = 0; i < frs.size(); i++) {
+            gs.emplace_back(new Guarded);
+            int mis = i < align.size() ? (align[i] & 15) : 0;
+            gs.back()->place(frs[i]->data(), frs[i]->size(), ((flushsel >> (i % 16)) & 1) == 0, mis);
+            p.push_back((char *)gs.back()->p);
+        }
+        count = (int)p.size();
+        arr.reset(new Guarded);
+        char *dummy = nullptr;
+        arr->place(count ? (const uint8_t *)p.data() : (const uint8_t *)&dummy, (count ? count : 1) * sizeof(char *), true, 0);
+        ptrs = (char **)arr->p;
+    }
 };
 
 struct DecodeOut { int rc = 0; bool out_null = true; std::vector<uint8_t> out; uint64_t out_len = 0; int cleanup_rc = 0; };
